@@ -25,6 +25,7 @@ type Config struct {
 	Rollbacks  bool   // C08: rolled-back transactions (issuing ops) of three kinds
 	Faults     bool   // C10: single write fault at every position of mutating operations
 	SweepEvery int    // C03 full sweep every n ops (0 = only at the end and after restart/unlock)
+	C04        bool   // byte-pattern scan of every write and of the file image after every operation; watch-only clause
 	Hook       func(*World)
 }
 
@@ -41,6 +42,7 @@ type run struct {
 	w   *World
 	st  Stats
 	res *Result
+	sc  *Scanner
 }
 
 func (x *run) fail(d *Diff) bool {
@@ -106,13 +108,42 @@ func (x *run) judgeOutcome(op *Op, err error) *Diff {
 func RunHistory(cfg Config, seed int64, dir string) (res *Result) {
 	r := rand.New(rand.NewSource(seed))
 	res = &Result{Stats: Stats{}}
-	w, err := NewWorld(r, dir, cfg.Seed, cfg.Hook)
+	var sc *Scanner
+	var scanHit *Diff
+	hook := cfg.Hook
+	if cfg.C04 {
+		sc = NewScanner()
+		hook = func(w *World) {
+			sc.Attach(w, nil)
+			if cfg.Hook != nil {
+				cfg.Hook(w)
+			}
+		}
+	}
+	w, err := NewWorld(r, dir, cfg.Seed, hook)
 	if err != nil {
 		res.Diff = df("harness:create", "%v", err)
 		return res
 	}
 	defer w.Close()
-	x := &run{cfg: cfg, w: w, st: res.Stats, res: res}
+	x := &run{cfg: cfg, w: w, st: res.Stats, res: res, sc: sc}
+	if sc != nil {
+		w.DB.Trace = sc.Trace(func(d *Diff) {
+			if scanHit == nil {
+				scanHit = d
+			}
+		})
+		defer func() {
+			res.Stats["c04-secret-patterns"] += sc.NSecret
+			res.Stats["c04-public-patterns"] += sc.NPublic
+			res.Stats["c04-images-scanned"] += sc.Images
+			res.Stats["c04-writes-scanned"] += sc.Puts
+			res.Stats["c04-bytes-scanned-KiB"] += int(sc.Bytes >> 10)
+		}()
+		if x.fail(sc.ScanImage(w)) {
+			return res
+		}
+	}
 	defer func() {
 		res.Log = w.Log
 		if p := recover(); p != nil {
@@ -139,6 +170,14 @@ func RunHistory(cfg Config, seed int64, dir string) (res *Result) {
 		op := w.Gen(cfg.Weights)
 		x.step(op)
 		res.Steps++
+		if sc != nil && res.Diff == nil {
+			if !x.fail(scanHit) {
+				x.fail(sc.ScanImage(w))
+			}
+			if op.Kind == "convert" && res.Diff == nil && w.WatchOnly {
+				x.afterConvert()
+			}
+		}
 	}
 	if res.Diff == nil && cfg.C03 {
 		// final: unlock, sweep everything; restart, unlock, sweep again
@@ -471,4 +510,40 @@ func lastSeg(p string) string {
 		return p[i+1:]
 	}
 	return p
+}
+
+// afterConvert (C04 second sentence): after conversion to watching-only a
+// REOPENED wallet still knows every address, no passphrase ever used unlocks
+// it, and no call returns private material.
+func (x *run) afterConvert() {
+	w := x.w
+	if err := w.Restart(); err != nil {
+		x.fail(df("harness:restart", "%v", err))
+		return
+	}
+	w.Logf("restart [after conversion]")
+	if !w.M.WatchOnly() {
+		x.fail(df("c04:not-watch-only-after-restart", "after ConvertToWatchingOnly and a restart the manager is not watching-only"))
+		return
+	}
+	for _, p := range append(append([][]byte{}, w.OldPriv...), w.OldPub...) {
+		p := p
+		err := w.View(func(ns walletdb.ReadBucket) error { return w.M.Unlock(ns, append([]byte(nil), p...)) })
+		x.st["c04-unlock-attempts-after-conversion"]++
+		if err == nil || !w.M.IsLocked() && !w.M.WatchOnly() {
+			x.fail(df("c04:unlock-after-conversion", "passphrase %q unlocks a wallet that was converted to watching-only", p))
+			return
+		}
+		if c := errCode(err); c != "ErrWatchingOnly" {
+			x.fail(df("c04:unlock-after-conversion-wrong-error", "Unlock after conversion failed with %v instead of a watching-only error", err))
+			return
+		}
+	}
+	if x.fail(w.SweepAll(x.st)) {
+		return
+	}
+	if x.fail(w.AccessBattery(x.st, 0)) {
+		return
+	}
+	x.st["c04-conversions-checked"]++
 }
